@@ -60,7 +60,11 @@ func runCrash(prop string) func(c *core.Ctx) error {
 				case strings.Contains(how, "out of memory") || strings.Contains(how, "cannot allocate"):
 					kind = "out-of-memory"
 				}
-				return core.Finding{Class: "c02:" + kind + ":" + cs.Entry + ":" + strings.SplitN(cs.Src, "/", 2)[0], What: how}
+				fd := core.Finding{Class: "c02:" + kind + ":" + cs.Entry + ":" + strings.SplitN(cs.Src, "/", 2)[0], What: how}
+				// findings go to the check's own context (sub only collects infrastructure errors)
+				c.CountEval(1)
+				c.Report(raw, []core.Finding{fd})
+				return fd
 			}})
 		if err != nil {
 			return err
